@@ -171,7 +171,7 @@ Theorem C02_int_range : forall classify fs,
   (match fget "range" fs with
    | MList items => forallb (fun it => match it with MFmt s => has_refs classify s | _ => true end) items
    | MFmt s => if has_refs classify s then true
-               else match RangeExpr.from_str false false classify s with Ok _ => true | Raise _ => false end
+               else range_expr_ok classify s
    | _ => true
    end) = true.
 Proof. exact (fun cl fs => proj2 (int_range_rule_iff cl fs)). Qed.
